@@ -16,7 +16,8 @@ import (
 // every option set.
 
 type c06Payload struct {
-	Src string `json:"src"`
+	Src     string `json:"src"`
+	Rebuilt bool   `json:"rebuilt_tokens,omitempty"`
 }
 
 func c06Options(all bool) []Cfg {
@@ -269,7 +270,7 @@ func c06Run(c *core.Ctx) {
 		if k == "" || !c.ShrinkOK(k) {
 			return
 		}
-		pl, _ := json.Marshal(c06Payload{src})
+		pl, _ := json.Marshal(c06Payload{src, pbRebuildTokens})
 		c.Violate(core.Violation{Kind: k, Case: fmt.Sprintf("%q", src), Detail: d, Payload: pl, Size: size})
 	}
 	all := c.Thorough()
@@ -361,6 +362,23 @@ func c06Run(c *core.Ctx) {
 		}
 		c.Inc("family_programs")
 		runProg(prog, k)
+		// plugin-built tokens: the same program (layouts with <= 1 deviation) through builders whose token
+		// interceptor rebuilds identifier and keyword tokens with NewTokenAt after next()
+		pbRebuildTokens = true
+		toks := gen.UnparseProgram(prog, false)
+		gen.Layouts(toks, 1, gaps[:4], func(text string, devs []gen.Dev) {
+			if c.Tick() {
+				return
+			}
+			c.Cur(text)
+			c.Inc("inputs")
+			c.Inc("rebuilt_token_layouts")
+			kd, d, _ := c06Check(text, false)
+			if kd != "" {
+				report("plugin-token-"+kd, "with a token interceptor that rebuilds identifier and keyword tokens through NewTokenAt after next(): "+d, text, len(toks)*4+len(devs)+2)
+			}
+		})
+		pbRebuildTokens = false
 	})
 	// (2b) brace-less bodies that end in a closing brace or parenthesis of their own (function expressions,
 	// object literals, calls with function arguments), in every compound position, followed by each core statement
@@ -554,7 +572,7 @@ func c06Run(c *core.Ctx) {
 			c.Inc("accepted_programs")
 		}
 		if kd != "" && c.ShrinkOK(kd) {
-			pl, _ := json.Marshal(c06Payload{sp.Src})
+			pl, _ := json.Marshal(c06Payload{Src: sp.Src})
 			c.Violate(core.Violation{Kind: kd, Config: "scale", Case: sp.Name, Detail: core.Short(d, 700), Payload: pl, Size: 1000 + len(sp.Src)})
 		}
 	}
@@ -585,6 +603,8 @@ func c06Replay(pl json.RawMessage) (string, []core.Violation) {
 	var p c06Payload
 	json.Unmarshal(pl, &p)
 	out := fmt.Sprintf("source %q", p.Src)
+	pbRebuildTokens = p.Rebuilt
+	defer func() { pbRebuildTokens = false }()
 	if k, d, _ := c06Check(p.Src, true); k != "" {
 		return out, []core.Violation{{Kind: k, Case: fmt.Sprintf("%q", p.Src), Detail: d}}
 	}
@@ -594,7 +614,7 @@ func c06Replay(pl json.RawMessage) (string, []core.Violation) {
 func init() {
 	core.Register(&core.PropSpec{
 		ID: "C06", Level: "model_checking",
-		Rule:     "writer state machine driven by the program universe: ALL token sequences <= n (4 quick, 5 thorough) in space and LF layouts; the statement families in every layout with <= k deviations (k=1 quick, 2 thorough) over gaps {LF, none, comment, blank line, blank lines + comment, tab} and dropped semicolons (covers statements starting with ( [ - ++ backtick, brace-less if/else bodies, comments and blank lines in every gap); multi-line backtick and continued string literals alone, next to other statements and nested <= 2 deep in blocks/functions; every expression chain <= depth 2 as statement and initialiser. For every accepted program: (a) each formatted output re-parses and its compact form equals the compact output of the source (same tree incl. literal values and grouping), (b) formatting the formatted output again reproduces it byte for byte — on 7 option sets quick, all 21 thorough; (c) the outputs for all 10 indent units {tab, 0..8 spaces} are identical after stripping leading white space of lines that do not start inside a literal; (d) the with- and without-semicolon outputs are identical after deleting semicolons whose innermost open bracket is a brace or none, and the without-semicolon output has no more of them. states = distinct formatted outputs under the default options (each is one path through the writer's deferred-whitespace machine), transitions = formatted outputs produced and checked Added families: brace-less bodies ending in } or ) of their own (7 bodies x 8 compound positions x following statement); literal/comment interplay (items with quotes, //, escapes followed by value-relevant multi-line literals, top level and nested); the scale family.",
+		Rule:     "writer state machine driven by the program universe: ALL token sequences <= n (4 quick, 5 thorough) in space and LF layouts; the statement families in every layout with <= k deviations (k=1 quick, 2 thorough) over gaps {LF, none, comment, blank line, blank lines + comment, tab} and dropped semicolons (covers statements starting with ( [ - ++ backtick, brace-less if/else bodies, comments and blank lines in every gap); multi-line backtick and continued string literals alone, next to other statements and nested <= 2 deep in blocks/functions; every expression chain <= depth 2 as statement and initialiser. For every accepted program: (a) each formatted output re-parses and its compact form equals the compact output of the source (same tree incl. literal values and grouping), (b) formatting the formatted output again reproduces it byte for byte — on 7 option sets quick, all 21 thorough; (c) the outputs for all 10 indent units {tab, 0..8 spaces} are identical after stripping leading white space of lines that do not start inside a literal; (d) the with- and without-semicolon outputs are identical after deleting semicolons whose innermost open bracket is a brace or none, and the without-semicolon output has no more of them. states = distinct formatted outputs under the default options (each is one path through the writer's deferred-whitespace machine), transitions = formatted outputs produced and checked Added families: brace-less bodies ending in } or ) of their own (7 bodies x 8 compound positions x following statement); literal/comment interplay (items with quotes, //, escapes followed by value-relevant multi-line literals, top level and nested); the scale family. Plugin-built tokens (round 12): every family program in every layout with <= 1 deviation (4 gap kinds) again through builders whose token interceptor rebuilds identifier and keyword tokens with NewTokenAt after next().",
 		Assume:   []string{"(d) uses the independent tokenizer R-tok to find statement-terminating semicolons", "trailing blanks at line ends are ignored when comparing the semicolon variants"},
 		QuickSec: 300, ThorSec: 2400, Run: c06Run, Replay: c06Replay,
 		Evals: "inputs", Nontriv: "accepted_multiline_layouts", States: "distinct_formatted_outputs", Trans: "formatted_outputs_checked",
